@@ -405,3 +405,149 @@ func SameEncoding(t reflect.Type, a, b []byte) bool {
 	}
 	return bytes.Equal(ca, cb)
 }
+
+// PermuteFields rewrites a valid encoding of a value of type t the way another
+// writer of the same wire format might have produced it: the fields of struct
+// bodies and of map entries in a different order (a reader of a tagged format
+// must not care). Lengths never change. next(n) draws from [0,n); changed
+// reports whether any order was changed.
+func PermuteFields(t reflect.Type, data []byte, next func(n int) int) (out []byte, changed bool) {
+	out = append([]byte(nil), data...)
+	for t.Kind() == reflect.Ptr {
+		t = t.Elem()
+	}
+	p := &permuter{next: next}
+	var err error
+	switch {
+	case t.Kind() == reflect.Struct && t != tTime && !isNullType(t):
+		err = p.structBody(structLookup(t), out)
+	case t.Kind() == reflect.Map || t.Kind() == reflect.Slice:
+		err = p.value(t, WTSlice, out)
+	}
+	if err != nil {
+		return append([]byte(nil), data...), false
+	}
+	return out, p.changed
+}
+
+type permuter struct {
+	next    func(n int) int
+	changed bool
+}
+
+func (p *permuter) value(t reflect.Type, wt int, d []byte) error {
+	for t.Kind() == reflect.Ptr {
+		t = t.Elem()
+	}
+	if t == tTime || isNullType(t) {
+		return nil
+	}
+	switch t.Kind() {
+	case reflect.Struct:
+		return p.structBody(structLookup(t), d)
+	case reflect.Map:
+		if t.Elem().Kind() == reflect.Interface {
+			return nil
+		}
+		if wt == WTLength {
+			return p.structBody(entryLookup(t), d)
+		}
+		return forEachEntry(d, func(start, ps, end int) error {
+			return p.structBody(entryLookup(t), d[ps:end])
+		})
+	case reflect.Slice:
+		et := t.Elem()
+		if et.Kind() == reflect.Interface || et.Kind() == reflect.Uint8 || isPackedElem(et) {
+			return nil
+		}
+		if wt == WTLength {
+			return p.value(et, WTLength, d)
+		}
+		return forEachEntry(d, func(start, ps, end int) error {
+			return p.value(et, WTLength, d[ps:end])
+		})
+	}
+	return nil
+}
+
+func (p *permuter) structBody(lk lookup, d []byte) error {
+	var segs []seg
+	off := 0
+	for off < len(d) {
+		start := off
+		tag, n, err := uvarint(d[off:])
+		if err != nil {
+			return err
+		}
+		off += n
+		wt, idx := int(tag&7), int(tag>>3)
+		ft, known := lk(idx)
+		switch wt {
+		case WTVarInt:
+			_, n, err := uvarint(d[off:])
+			if err != nil {
+				return err
+			}
+			off += n
+		case WT64:
+			if len(d)-off < 8 {
+				return errWire
+			}
+			off += 8
+		case WT32:
+			if len(d)-off < 4 {
+				return errWire
+			}
+			off += 4
+		case WTLength:
+			l, n, err := uvarint(d[off:])
+			if err != nil {
+				return err
+			}
+			off += n
+			if l > uint64(len(d)-off) {
+				return errWire
+			}
+			if known {
+				if err := p.value(ft, WTLength, d[off:off+int(l)]); err != nil {
+					return err
+				}
+			}
+			off += int(l)
+		case WTSlice:
+			ext, err := sliceExtent(d[off:])
+			if err != nil {
+				return err
+			}
+			if known {
+				if err := p.value(ft, WTSlice, d[off:off+ext]); err != nil {
+					return err
+				}
+			}
+			off += ext
+		default:
+			return errWire
+		}
+		segs = append(segs, seg{start, off})
+	}
+	if len(segs) < 2 || p.next(2) == 0 {
+		return nil
+	}
+	blobs := make([][]byte, len(segs))
+	for i, s := range segs {
+		blobs[i] = append([]byte(nil), d[s.a:s.b]...)
+	}
+	for i := len(blobs) - 1; i > 0; i-- {
+		j := p.next(i + 1)
+		if i != j {
+			blobs[i], blobs[j] = blobs[j], blobs[i]
+			p.changed = true
+		}
+	}
+	o := 0
+	for _, b := range blobs {
+		copy(d[o:], b)
+		o += len(b)
+	}
+	return nil
+}
